@@ -178,12 +178,104 @@ class _MySubErr(_MyErr, ValueError):
     pass
 
 
+class _EmptyErr(Exception):                 # falsy instance: an empty error collection
+    def __len__(self):
+        return 0
+
+
+class _FalseErr(ValueError):                # falsy instance
+    def __bool__(self):
+        return False
+
+
+class _BoolRaisesErr(LookupError):          # no truth value at all
+    def __bool__(self):
+        raise RuntimeError("no truth value")
+
+
+class _EqErr(KeyError):                     # equal to everything
+    def __eq__(self, other):
+        return True
+
+    def __hash__(self):
+        return 1
+
+
+class _EqRaisesErr(OSError):
+    def __eq__(self, other):
+        raise RuntimeError("not comparable")
+
+    __hash__ = None
+
+
+class _AlwaysMeta(type):                    # isinstance / issubclass always say yes
+    def __subclasscheck__(cls, sub):
+        return True
+
+    def __instancecheck__(cls, inst):
+        return True
+
+
+class _NeverMeta(type):                     # ... always say no
+    def __subclasscheck__(cls, sub):
+        return False
+
+    def __instancecheck__(cls, inst):
+        return False
+
+
+class _FalsyMeta(type):                     # the class object itself is falsy
+    def __bool__(cls):
+        return False
+
+
+class _MetaErr(Exception, metaclass=_AlwaysMeta):
+    pass
+
+
+class _NeverErr(Exception, metaclass=_NeverMeta):
+    pass
+
+
+class _SubNeverErr(_NeverErr):
+    pass
+
+
+class _FalsyClsErr(ArithmeticError, metaclass=_FalsyMeta):
+    pass
+
+
+import abc as _abc  # noqa: E402
+
+
+class _AbcErr(Exception, metaclass=_abc.ABCMeta):     # ValueError is a *virtual* subclass
+    pass
+
+
+_AbcErr.register(ValueError)
+
 EXC_CLASSES = {
     "ValueError": ValueError, "TypeError": TypeError, "KeyError": KeyError, "LookupError": LookupError,
     "Exception": Exception, "BaseException": BaseException, "OSError": OSError, "IOError": IOError,
     "MyErr": _MyErr, "MySubErr": _MySubErr, "ZeroDivisionError": ZeroDivisionError,
     "ArithmeticError": ArithmeticError, "StopIteration": StopIteration, "KeyboardInterrupt": KeyboardInterrupt,
+    "EmptyErr": _EmptyErr, "FalseErr": _FalseErr, "BoolRaisesErr": _BoolRaisesErr, "EqErr": _EqErr,
+    "EqRaisesErr": _EqRaisesErr, "MetaErr": _MetaErr, "NeverErr": _NeverErr, "SubNeverErr": _SubNeverErr,
+    "FalsyClsErr": _FalsyClsErr, "AbcErr": _AbcErr,
 }
+EXOTIC_EXC = ["EmptyErr", "FalseErr", "BoolRaisesErr", "EqErr", "EqRaisesErr", "MetaErr", "NeverErr", "SubNeverErr",
+              "FalsyClsErr", "AbcErr"]
+# bases of the exotic classes, so that matching handlers are frequent
+EXC_BASES = {"EmptyErr": ["Exception"], "FalseErr": ["ValueError", "Exception"], "BoolRaisesErr": ["LookupError"],
+             "EqErr": ["KeyError", "LookupError"], "EqRaisesErr": ["OSError", "IOError"], "MetaErr": ["Exception"],
+             "NeverErr": ["Exception"], "SubNeverErr": ["NeverErr", "Exception"], "FalsyClsErr": ["ArithmeticError"],
+             "AbcErr": ["Exception"], "MySubErr": ["MyErr", "ValueError"], "KeyError": ["LookupError"]}
+
+
+def handler_has_subclasscheck(exc) -> bool:
+    """a handler class (or an element of a handler tuple) whose metaclass overrides __subclasscheck__"""
+    hs = exc if isinstance(exc, tuple) else (exc,)
+    return any(isinstance(h, type) and type(h).__subclasscheck__ is not type.__subclasscheck__ for h in hs)
 
 
 def is_one_shot(spec) -> bool:
@@ -363,12 +455,24 @@ def neighbour(rng, spec):
 
 def gen_exc_pair(rng):
     names = list(EXC_CLASSES)
-    err = [rng.choice(["exci", "excc"]), rng.choice(names)]
+    ename = rng.choice(EXOTIC_EXC) if rng.random() < 0.5 else rng.choice(names)
+    err = [rng.choice(["exci", "exci", "excc"]), ename]
+
+    def handler():
+        c = rng.random()
+        if c < 0.35:
+            return ename                                         # the class itself
+        if c < 0.6 and ename in EXC_BASES:
+            return rng.choice(EXC_BASES[ename])                  # one of its bases
+        if c < 0.75:
+            return rng.choice(EXOTIC_EXC)
+        return rng.choice(names)
+
     c = rng.random()
     if c < 0.55:
-        exc = ["excc", rng.choice(names)]
+        exc = ["excc", handler()]
     elif c < 0.92:
-        exc = ["exct", [["excc", rng.choice(names)] for _ in range(rng.choice([0, 1, 2, 3]))]]
+        exc = ["exct", [["excc", handler()] for _ in range(rng.choice([0, 1, 2, 3]))]]
     else:
         # malformed handlers on which CPython and the tracer both raise TypeError.  `except None:` and
         # nested tuples are not generated: CPython rejects them when the handler is reached, while
